@@ -147,6 +147,19 @@ class GenCtx:
         self.ops = []
         self.by_kind = {}
         self.names = {}       # (kind, set) -> [names]
+        self.set_choice = {}
+
+    def set_for(self, draw, kind):
+        """Set name for a new object of `kind`. Unless the profile allows differently named sets of one type
+        (the C07 finding), every object of a kind in this logical file goes to the same set."""
+        p = self.profile
+        if not p.named_sets:
+            return None
+        if p.set_names_per_type_differ:
+            return draw(st.sampled_from([None, 'S1', 'S2']))
+        if kind not in self.set_choice:
+            self.set_choice[kind] = draw(st.sampled_from([None, None, 'SET-' + kind.upper()[:6]]))
+        return self.set_choice[kind]
 
     def add(self, op):
         self.ops.append(op)
@@ -402,14 +415,18 @@ def draw_frame(draw, g, fidx, rows=None):
                     or len(model.flatten(g.ops[k]['attrs']['coordinates']['v'])) == dim[0]]
             if axes and draw(st.booleans()):
                 op['attrs']['axis'] = {'v': [{'$ref': draw(st.sampled_from(axes))}], 'r': 'kw'}
-        if p.named_sets and draw(st.integers(0, 3)) == 0:
-            op['set'] = 'CHSET'
+        sn = g.set_for(draw, 'channel')
+        if sn is not None:
+            op['set'] = sn
         ch_idx.append(g.add(op))
     fop = {'t': 'frame', 'name': draw_name(draw, p), 'attrs': {
         'channels': {'v': [{'$ref': i} for i in ch_idx], 'r': 'kw'}}}
     if indexed:
         it = draw(st.sampled_from(ENUMS['FrameIndexType']))
         fop['attrs']['index_type'] = {'v': it, 'r': 'kw'}
+    sn = g.set_for(draw, 'frame')
+    if sn is not None:
+        fop['set'] = sn
     extra = draw_attrs(draw, 'frame', g, only=('description', 'encrypted') if not p.full_attrs else
                        ('description', 'encrypted', 'direction', 'spacing', 'index_min', 'index_max'))
     fop['attrs'].update(extra)
@@ -452,8 +469,9 @@ def draw_meta(draw, kind, g):
     p = g.profile
     name = draw_name(draw, p)
     op = {'t': kind, 'name': name, 'attrs': {}}
-    if p.named_sets and draw(st.integers(0, 2)) == 0:
-        op['set'] = draw(st.sampled_from(['S1', 'S2'])) if p.set_names_per_type_differ else 'S1'
+    sn = g.set_for(draw, kind)
+    if sn is not None:
+        op['set'] = sn
     attrs = TYPES[kind]['attrs']
     if kind == 'zone':
         op['attrs'] = draw_attrs(draw, kind, g, only=('description', 'domain'))
@@ -555,8 +573,9 @@ def draw_origin(draw, g, first):
         op['attrs']['creation_time'] = {'v': draw_datetime(draw), 'r': 'kw'}
     if p.explicit_origin_refs and draw(st.integers(0, 2)) == 0:
         op['oref'] = draw(st.integers(1, 40))
-    if p.named_sets and p.max_origins > 1 and draw(st.integers(0, 3)) == 0:
-        op['set'] = 'OSET'
+    sn = g.set_for(draw, 'origin')
+    if sn is not None:
+        op['set'] = sn
     return g.add(op)
 
 
